@@ -67,7 +67,8 @@ def _run_variant(variant, fkey, lab, path, allowed, want_observed):
     act, args = json.loads(lab)
     ctx = B.Ctx(variant)
     out = {"variant": variant, "issues": [], "to": None, "unsupported": False, "drift": None, "not_run": False}
-    if (variant in B.RT_ONLY_CLASSES and act not in B.RT_ACTS) or (act in B.PLAIN_ONLY_ACTS and variant != "plain"):
+    if (variant in B.RT_ONLY_CLASSES and act not in B.RT_ACTS) or (act in B.PLAIN_ONLY_ACTS and variant != "plain") \
+            or (_G.get("light") and act in B.NAME_BLIND_ACTS and variant != "plain"):
         out["not_run"] = True
         return out
     try:
@@ -193,10 +194,10 @@ def _task(job):
     return fkey, lab, outs
 
 
-def explore(graph: TGraph, run, variants, *, nproc=None, budget=None, seed=0, sample_every=1499):
+def explore(graph: TGraph, run, variants, *, nproc=None, budget=None, seed=0, sample_every=1499, light=False):
     """Breadth-first conformance walk from EMPTY.  Reports through run.fail / run.model_drift."""
     nproc = nproc or min(16, os.cpu_count() or 1)
-    _G["graph"], _G["variants"] = graph, variants
+    _G["graph"], _G["variants"], _G["light"] = graph, variants, light
     rnd = random.Random(seed)
     paths = {"EMPTY": []}
     frontier = ["EMPTY"]
